@@ -51,9 +51,9 @@ type c18Env struct {
 
 func genC18Env(c *core.Ctx) c18Env {
 	t := map[string]any{
-		"n": map[string]any{"a": c.Rng.Intn(20), "b": 1 + c.Rng.Intn(9), "c": c.Rng.Intn(100) - 50},
-		"s": map[string]any{"x": c16Words[c.Rng.Intn(5)], "y": c16Words[c.Rng.Intn(5)]},
-		"op": map[string]any{"cmp": []string{">=", "<", "==", "!="}[c.Rng.Intn(4)], "arith": []string{"+", "-", "*"}[c.Rng.Intn(3)]},
+		"n":   map[string]any{"a": c.Rng.Intn(20), "b": 1 + c.Rng.Intn(9), "c": c.Rng.Intn(100) - 50},
+		"s":   map[string]any{"x": c16Words[c.Rng.Intn(5)], "y": c16Words[c.Rng.Intn(5)]},
+		"op":  map[string]any{"cmp": []string{">=", "<", "==", "!="}[c.Rng.Intn(4)], "arith": []string{"+", "-", "*"}[c.Rng.Intn(3)]},
 		"ref": "n.a",
 	}
 	b, _ := yaml.Marshal(t)
